@@ -55,6 +55,9 @@ func init() {
 			rulePropsCode(c, r, "")
 			// a failed chunk start must be latched: the next Read would dereference a nil chunk reader
 			ruleSticky(c, r, "", c.Func("lzma", "Reader2.Read"), c.Field("lzma", "Reader2.err"))
+			// an error of a fallible step that is dropped lets the reader go on with what the failed step left
+			// behind (a nil range decoder after a failed Reopen): the next call dereferences it
+			ruleIO(c, r, readerCone(c), "", true)
 		},
 	})
 }
